@@ -3,7 +3,8 @@
 (* Scenario lattice with expected verdicts for singularity detection (C05, *)
 (* binding B1): every multiple of pi k in -4..4, either side, depths       *)
 (* inside / outside the 0.01 degree band (kept 10 % away from its edge),   *)
-(* either sign of joint 5, offset classes, bare and wrapped robots.        *)
+(* either sign of joint 5, offset classes, bare and wrapped robots (tool,   *)
+(* base, a parallelogram coupling, a coupling that acts on joint 5).      *)
 (***************************************************************************)
 EXTENDS Singular, TLC, Json
 
@@ -11,7 +12,7 @@ Depths == {0, 1, 50, 90, 110, 200, 20000, 450000, 900000}
 VARIABLES k, side, depth, s5, off, wrapk
 vars == <<k, side, depth, s5, off, wrapk>>
 Init == /\ k \in -4..4 /\ side \in {-1, 1} /\ depth \in Depths /\ s5 \in {-1, 1}
-        /\ off \in {"zero", "quarter", "random"} /\ wrapk \in {"bare", "tool", "base+tool"}
+        /\ off \in {"zero", "quarter", "random"} /\ wrapk \in {"bare", "tool", "base+tool", "pgram", "pgram-j5"}
 Next == UNCHANGED vars
 Spec == Init /\ [][Next]_vars
 
